@@ -1175,6 +1175,9 @@ class SQLModel:
                 )
                 for k in excess_sub_declared_keys:
                     del subsql.declared_term_dependencies[k]
+                # the step now computes this extend too: re-key it, so CTE elimination does not confuse it
+                # with another occurrence of the un-extended sub-query
+                subsql.ops_key = f"extend({extend_node}, {subsql.terms.keys()})"
                 return subsql
         view_name = "extend_" + str(temp_id_source[0])
         temp_id_source[0] = temp_id_source[0] + 1
